@@ -65,6 +65,15 @@ class Gen:
                 self.add_sub(cid, depth)
             elif r < 0.62 and len(self.hin[cid]) < min(3, n):
                 self.herald(cid)
+            elif r < 0.72 and n >= 2:
+                # a unitary block (added through add(Unitary(u), mode)); later ancilla insertions may
+                # land strictly inside it and must expand it
+                sz = rng.randint(2, min(3, n))
+                uid = self.fresh()
+                self.prog.append(["unitary", uid, cg.mat_json(cg.exact_unitary(rng, sz))])
+                self.ports[uid], self.hin[uid], self.hout[uid], self.anc[uid] = sz, set(), set(), 0
+                self.prog.append(["add", cid, uid, rng.randint(0, n - sz), rng.random() < 0.4])
+                self.ctx.count("add_unitary_block")
             else:
                 self.prog.append(cg.rand_prim_op(rng, cid, n, p_invalid=0.05))
         return cid
